@@ -201,3 +201,30 @@ def wrapper_predicate(rep, prog, qname, wrapped, param, rule="WRAP", exc="ValueE
     leaks = [r for r in S.select("raise", qname=f.qname)]
     rep.check(rule + ".noraise", not leaks, fwhere(f), "%s never raises itself" % f.name, "%s raises" % f.name)
     return S
+
+
+# ----------------------------------------------------------------------------- formulas
+def decide_formula(rep, rule, w, got, ref, what, make_point=None):
+    """equal normal forms pass; a complete comparison or an exact rational counter-example is a
+    violation; anything else is inconclusive (never a pass)"""
+    import os
+    from .. import mnf as MN
+    from .. import mnf_eval as ME
+    v = MN.compare(got, ref)
+    if v == "equal":
+        rep.ok(rule, w, "%s equals %s" % (what, MN.show(ref)[:220]))
+        return
+    if v == "different":
+        rep.bad(rule, w, "%s is %s but must be %s" % (what, MN.show(got)[:220], MN.show(ref)[:220]))
+        return
+    if make_point is not None:
+        res = ME.refute(got, ref, make_point, seed=int(os.environ.get("VERIF_SEED", "0") or 0))
+        if res[0] == "different":
+            rep.bad(rule, w, "%s is %s, must be %s: the two expressions differ at an exact rational point (witness recorded)" % (
+                what, MN.show(got)[:200], MN.show(ref)[:200]), detail=res[1])
+            return
+        rep.unk(rule, w, "%s (%s) has another algebraic structure than the reference (%s); %s" % (
+            what, MN.show(got)[:160], MN.show(ref)[:160],
+            "they agree at %d generic rational points, which proves nothing" % res[1] if res[0] == "agree" else "not evaluable: %s" % res[1]))
+        return
+    rep.unk(rule, w, "%s has a different inverse structure: %s vs %s" % (what, MN.show(got)[:160], MN.show(ref)[:160]))
